@@ -76,6 +76,33 @@ fn check_cubic<T: Comp>(ctrl: &[Vec<f32>; 4], r: &mut Report) {
     }
 }
 
+/// The derivative does not depend on where the curve sits: control polygons on a small dyadic lattice, translated by
+/// exactly representable offsets up to 2^20, must have a tangent that matches the f64 derivative of those very inputs to
+/// within 1e-4 of the curve's own extent (not of its distance from the origin).
+fn check_tangent_translated(i: u64, r: &mut Report) {
+    const L: [f32; 4] = [0.0, 1.0, -2.0, 0.5];
+    let base = [L[(i % 4) as usize], L[(i / 4 % 4) as usize], L[(i / 16 % 4) as usize], L[(i / 64 % 4) as usize]];
+    let off = [0.0f32, 256.0, 65536.0, -1048576.0][(i / 256 % 4) as usize];
+    let extent = base.iter().flat_map(|a| base.iter().map(move |b| (a - b).abs() as f64)).fold(0.0, f64::max);
+    if extent == 0.0 { return; }
+    let ctrl: [Vec<f32>; 4] = std::array::from_fn(|k| vec![base[k] + off]);
+    let ctrl2: [Vec<f32>; 4] = std::array::from_fn(|k| vec![base[k] + off, base[3 - k] * 0.5 - off]);
+    let case = || obj! {"kind" => "tangent-translated", "i" => i};
+    for k in 0..=8 {
+        let t = k as f32 / 8.0;
+        r.eval();
+        let c1 = CubicBezier([ctrl[0][0], ctrl[1][0], ctrl[2][0], ctrl[3][0]]);
+        let c2 = CubicBezier(std::array::from_fn::<Vec2, 4, _>(|j| vec2(ctrl2[j][0], ctrl2[j][1])));
+        let pf1: [Vec<f64>; 4] = std::array::from_fn(|j| vec![ctrl[j][0] as f64]);
+        let pf2: [Vec<f64>; 4] = std::array::from_fn(|j| vec![ctrl2[j][0] as f64, ctrl2[j][1] as f64]);
+        let (Ok(t1), Ok(t2)) = (caught(|| c1.tangent(t)), caught(|| c2.tangent(t))) else { r.violation(format!("cubic-panic|translated|{base:?}+{off}|t={t}"), "tangent panicked".into(), case()); return; };
+        let (d1, d2) = (dbern(&pf1, t as f64), dbern(&pf2, t as f64));
+        let e = (t1 as f64 - d1[0]).abs().max((t2.x() as f64 - d2[0]).abs()).max((t2.y() as f64 - d2[1]).abs());
+        if e > 1e-4 * extent { r.violation(format!("cubic-tangent|translated|{base:?}+{off}|t={t}"), format!("control points {base:?} + {off}: tangent({t}) = {t1} / {:?}, derivative {} / {:?} (error {e:.3e}, curve extent {extent})", t2.0, d1[0], d2), case()); return; }
+    }
+    r.nontrivial();
+}
+
 fn spline_ctrl(n: usize, seed: usize, dim: usize) -> Vec<Vec<f32>> {
     (0..3 * n + 1).map(|i| (0..dim).map(|d| VALS[(i * 5 + seed * 3 + d * 2 + (i * i + seed) % 3) % 7]).collect()).collect()
 }
@@ -185,6 +212,7 @@ fn run_spline(cfg: &Cfg) -> ! {
         let c: [Vec<f32>; 4] = [vec![VALS[(i % 7) as usize]], vec![VALS[(i / 7 % 7) as usize]], vec![VALS[(i / 49 % 7) as usize]], vec![VALS[(i / 343) as usize]]];
         check_cubic::<f32>(&c, r);
     }));
+    rep.merge(par_range(cfg, 1024, check_tangent_translated));
     // pooled polygons for the vector / point / colour types
     let pool: u64 = if quick { 1200 } else { 12000 };
     rep.merge(par_range(cfg, pool, |i, r| {
@@ -215,7 +243,7 @@ fn run_spline(cfg: &Cfg) -> ! {
     }
     rep.sample(0, || obj! {"cubic_f32_ctrl" => vec![0.0f32, 3.0, -1000.0, 1e-3], "t" => "k/64, <0, >1, NaN", "spline" => "n=7 segments, t=3/7 +- ulp", "approximate_thresholds" => vec![1.0f32, 0.1, 0.01, 1e-4, 0.0, -1.0]});
     rep.finish(cfg, "exploration",
-        "cubic Beziers: all 7^4 scalar control polygons and a pooled family for Vec2/Vec3/Point2/Color3f x t in {k/64} + {<0, -0, >1, NaN, +-inf, near-1}: eval and fast_eval vs f64 Bernstein (1e-4 scale), exact end points at and beyond the ends, bounding box, tangent vs derivative; splines with 1..8 segments x control polygons x t lattice incl. k/n and k/n +- 1 ulp: owning cubic, through every third control point, join continuity; approximate() with thresholds from coarse to 0 and negative (forces the depth bound) and with one-sided criteria on the signed error vector q - q': endpoints exact, points are curve points at increasing dyadic parameters, every piece met the criterion or sits at depth 10+log2(len). non-trivial = interior parameter judged / polyline verified.",
+        "cubic Beziers: all 7^4 scalar control polygons and a pooled family for Vec2/Vec3/Point2/Color3f x t in {k/64} + {<0, -0, >1, NaN, +-inf, near-1}: eval and fast_eval vs f64 Bernstein (1e-4 scale), exact end points at and beyond the ends, bounding box, tangent vs derivative (also for 256 dyadic polygons translated by 256, 65536 and -2^20, judged relative to the curve's own extent); splines with 1..8 segments x control polygons x t lattice incl. k/n and k/n +- 1 ulp: owning cubic, through every third control point, join continuity; approximate() with thresholds from coarse to 0 and negative (forces the depth bound) and with one-sided criteria on the signed error vector q - q': endpoints exact, points are curve points at increasing dyadic parameters, every piece met the criterion or sits at depth 10+log2(len). non-trivial = interior parameter judged / polyline verified.",
         &["tolerances 1e-4 (cubic) and 1e-3 (spline) relative to the largest control magnitude", "approximate(): first compared with an independent re-run of the bisection schedule; on mismatch a schedule-agnostic check decides"])
 }
 
@@ -255,6 +283,17 @@ fn check_angle_impl(deg: f64, r: &mut Report) {
             && a.min(b).to_rads() == m.min(b.to_rads()) && a.max(b).to_rads() == m.max(b.to_rads()) && a.clamp(degs(-45.0), degs(60.0)).to_rads() == m.clamp(degs(-45.0).to_rads(), degs(60.0).to_rads())
             && (a % b).to_rads() == m % b.to_rads();
         if !ok { r.violation(key("arith"), format!("operators/clamp/min/max on degs({d}) do not act on the magnitude"), case()); }
+        // the same arithmetic through the Affine / Linear / Lerp trait entry points
+        {
+            use re::math::space::{Affine, Linear};
+            use re::math::Lerp;
+            let bm = b.to_rads();
+            let lerp = a.lerp(&b, 0.25).to_rads() as f64;
+            let want = m as f64 + (bm as f64 - m as f64) * 0.25;
+            let ok = Affine::add(&a, &b).to_rads() == m + bm && Affine::sub(&a, &b).to_rads() == m - bm && Affine::sub(&b, &a).to_rads() == bm - m
+                && Linear::mul(&a, 2.5).to_rads() == m * 2.5 && Linear::neg(&a).to_rads() == -m && (lerp - want).abs() <= 1e-5 * (1.0 + m.abs() as f64);
+            if !ok { r.violation(key("arith-traits"), format!("Affine/Linear/Lerp on degs({d}) and degs(33) do not act on the magnitude: add {} sub {} lerp(0.25) {lerp} (expected {want})", Affine::add(&a, &b).to_rads(), Affine::sub(&a, &b).to_rads()), case()); }
+        }
         // wrap
         for (mn, mx) in [(0.0f32, 1.0f32), (-0.5, 0.5), (-0.25, 0.75), (1.0, 3.0), (-1000.0, -999.0), (0.0, 0.125), (-0.01, 0.02)] {
             for unit in 0..3 {
@@ -264,8 +303,8 @@ fn check_angle_impl(deg: f64, r: &mut Report) {
                 let (x, wl, l, h) = (a.to_rads() as f64, w.to_rads() as f64, lo.to_rads() as f64, hi.to_rads() as f64);
                 let span = h - l;
                 let q = (x - wl) / span;
-                let slack = 1e-5 * span.max(x.abs() * 1e-2);
-                let in_rng = wl >= l - slack && wl <= h + slack;
+                // inside the interval: closed at the lower end, at the upper end only by rounding - no slack either way
+                let in_rng = wl >= l && wl <= h;
                 let cong = (q - q.round()).abs() <= 1e-4 + 4.0 * (x.abs() * 6e-8) / span;
                 if !in_rng || !cong {
                     let side = if x < l { "below-min" } else if x > h { "above-max" } else { "inside" };
@@ -273,6 +312,25 @@ fn check_angle_impl(deg: f64, r: &mut Report) {
                 } else if x < l || x > h { r.nontrivial(); }
             }
         }
+    }
+}
+
+/// wrap() far from the interval: inputs hundreds to tens of thousands of revolutions away, where a product
+/// `len * n` is rounded at the magnitude of the input
+fn check_wrap_far(i: u64, r: &mut Report) {
+    let x = (500.0 + i as f32 * 0.017_31) * if i % 2 == 0 { 1.0 } else { -1.0 };
+    let a = rads(x);
+    for (k, (mn, mx)) in [(0.0f32, 1.0f32), (-0.5, 0.5), (-0.25, 0.75), (1.0, 3.0), (-1000.0, -999.0), (0.0, 0.125), (-0.01, 0.02)].into_iter().enumerate() {
+        r.eval();
+        let (lo, hi) = (turns(mn), turns(mx));
+        let case = || obj! {"kind" => "wrapfar", "i" => i};
+        let w = match caught(|| a.wrap(lo, hi)) { Ok(w) => w, Err(p) => { r.violation(format!("wrap-panic|far|{x}|{mn}..{mx}"), p, case()); continue; } };
+        let (xd, wl, l, h) = (x as f64, w.to_rads() as f64, lo.to_rads() as f64, hi.to_rads() as f64);
+        let span = h - l;
+        let q = (xd - wl) / span;
+        if !(wl >= l && wl <= h) { r.violation(format!("wrap|range|far|interval{k}|x={x}"), format!("rads({x}).wrap([{mn},{mx}] turns) = {wl} rad lies outside [{l},{h}]"), case()); }
+        else if (q - q.round()).abs() > 1e-4 + 4.0 * (xd.abs() * 6e-8) / span { r.violation(format!("wrap|congruence|far|interval{k}|x={x}"), format!("rads({x}).wrap([{mn},{mx}] turns) = {wl}: (x-w)/span = {q}"), case()); }
+        else { r.nontrivial(); }
     }
 }
 
@@ -334,6 +392,7 @@ fn run_angle(cfg: &Cfg) -> ! {
     let mut rep = Report::new();
     rep.merge(par_range(cfg, 2 * 488 + 1, |i, r| check_angle(i as i32 - 488, r)));
     rep.merge(par_range(cfg, 1441, |i, r| check_angle_deg(i as f32 * 0.5 - 360.0 + 0.125, r)));
+    rep.merge(par_range(cfg, if cfg.quick() { 600_000 } else { 6_000_000 }, check_wrap_far));
     let mags = [1e-9f32, 1e-6, 1.0, 1e4];
     let n2: i64 = if cfg.quick() { 13 } else { 41 };
     rep.merge(par_range(cfg, (n2 * n2) as u64 * 4, |i, r| {
@@ -368,7 +427,7 @@ fn run_angle(cfg: &Cfg) -> ! {
     let _: Angle = Angle::ZERO;
     rep.sample(0, || obj! {"angle_deg" => -1500.0, "wrap_interval_turns" => vec![0.0, 1.0], "vec2" => vec![-2e-7, 2e-7], "vec3" => vec![0.0, -5e-7, 0.0]});
     rep.finish(cfg, "exploration",
-        "angles k*7.5 deg for |k|<=480 (+-10 turns) with +-1 ulp neighbours and {1e-6,1e4,1e6,...} rad: unit conversions in all directions, sin/cos/sin_cos, operators/clamp/min/max on the magnitude, wrap into 7 intervals x 3 unit spellings (in range, congruent); 2-D and 3-D vector lattices x magnitudes {1e-9,1e-6,1,1e4} minus zero, plus a 9^3 lattice mixing magnitudes 1e-6..1e3 per component (near-axis and near-pole vectors): radius = length, azimuth/altitude ranges and values vs f64 atan2, Cartesian->polar/spherical->Cartesian and the reverse order round trips; polar/spherical -> Cartesian components vs f64 trigonometry of the stored angle (2e-6), also for azimuths of +-3, +-100, +-1000, 5000 and -20000 turns. non-trivial = wrapped from outside the interval / round trip verified.",
+        "angles k*7.5 deg for |k|<=480 (+-10 turns) with +-1 ulp neighbours and {1e-6,1e4,1e6,...} rad: unit conversions in all directions, sin/cos/sin_cos, operators/clamp/min/max on the magnitude, wrap into 7 intervals x 3 unit spellings (in range without slack, congruent), also for 600 000 (thorough 6 000 000) inputs 80 .. 16 000 revolutions away; Affine/Linear/Lerp trait entry points on angles; 2-D and 3-D vector lattices x magnitudes {1e-9,1e-6,1,1e4} minus zero, plus a 9^3 lattice mixing magnitudes 1e-6..1e3 per component (near-axis and near-pole vectors): radius = length, azimuth/altitude ranges and values vs f64 atan2, Cartesian->polar/spherical->Cartesian and the reverse order round trips; polar/spherical -> Cartesian components vs f64 trigonometry of the stored angle (2e-6), also for azimuths of +-3, +-100, +-1000, 5000 and -20000 turns. non-trivial = wrapped from outside the interval / round trip verified.",
         &["std trigonometry; tolerances 1e-4 relative (coordinates), 1e-4 rad (angles), 1e-6 relative (unit conversions)"])
 }
 
@@ -380,6 +439,7 @@ fn main() {
             let g = |k: &str| c.get(k).and_then(|j| j.as_u64()).unwrap_or(0) as usize;
             let f = |k: &str| parse_fbits(c.get(k).unwrap()).unwrap();
             match c.get("kind").and_then(|j| j.as_str()).unwrap_or("") {
+                "tangent-translated" => check_tangent_translated(c.get("i").unwrap().as_u64().unwrap(), r),
                 "cubic" => {
                     let ctrl: Vec<Vec<f32>> = c.get("ctrl").unwrap().as_arr().unwrap().iter().map(|p| p.as_arr().unwrap().iter().map(|x| parse_fbits(x).unwrap()).collect()).collect();
                     let ctrl: [Vec<f32>; 4] = [ctrl[0].clone(), ctrl[1].clone(), ctrl[2].clone(), ctrl[3].clone()];
@@ -396,6 +456,7 @@ fn main() {
                 "vec2" => check_vec2(f("x"), f("y"), r),
                 "vec3" => check_vec3(f("x"), f("y"), f("z"), r),
                 "polar" => check_polar_first(f("r"), f("az"), f("alt"), r),
+                "wrapfar" => check_wrap_far(c.get("i").unwrap().as_u64().unwrap(), r),
                 k => machinery_error(&format!("unknown replay kind {k}")),
             }
         });
